@@ -189,6 +189,8 @@ class SArr(Sym):
     def _norm_slice(self, sl, n):
         if sl.step is not None and sl.step != 1:
             raise OutOfSubset('slice step')
+        if sl.start is None and sl.stop is None:
+            return z3.IntVal(0), n
 
         def clamp(v, default):
             if v is None:
